@@ -50,7 +50,9 @@ DESCS = [None, "short text", "forty words " + " ".join("word%d" % i for i in ran
 
 
 @st.composite
-def tree_st(draw, max_depth=3, max_fanout=3, typed=False, descriptions=False, min_top=1, unique_names=False):
+def tree_st(draw, max_depth=3, max_fanout=3, typed=False, descriptions=False, min_top=1, unique_names=False,
+            collide=False):
+    used_as_option = set()
     longs = list(draw(st.permutations(LONGS)))
     shorts = list(draw(st.permutations(SHORTS)))
     argnames = list(draw(st.permutations(ARGNAMES)))
@@ -110,6 +112,14 @@ def tree_st(draw, max_depth=3, max_fanout=3, typed=False, descriptions=False, mi
                 if not sub_names:
                     break
                 subs.append(make(depth + 1, (has_multi, has_optional), sub_names, sub_aliases))
+        if collide and subs and draw(st.booleans()):
+            # an option that is named like one of the command's own sub-commands
+            cand = [x["name"] for x in subs if x["name"] not in used_as_option and len(x["name"]) > 1]
+            if cand:
+                nm = draw(st.sampled_from(cand))
+                used_as_option.add(nm)
+                opts.append({"k": "opt", "long": nm, "short": None, "mode": "none", "type": "s", "nullable": False,
+                             "default": None, "desc": elem_desc()})
         cmd = {"name": name, "aliases": aliases, "kind": kind, "opts": opts, "args": args,
                "desc": (draw(st.sampled_from(DESCS)) if descriptions else "d"), "subs": subs}
         if descriptions and draw(st.integers(0, 3)) == 0:
